@@ -38,6 +38,8 @@ void sched_config(sim::Rng &r, sim::Plan &p, bool multi_threaded, bool allow_spu
 // 64-bit immediates found in the library's own machine code (build.sh): values the code under test compares memory against
 namespace hdict { size_t size(); uint64_t at(size_t i); }
 
+namespace hx { void poison_errors(uint64_t seed, uint64_t n); } // stale errno / aws_last_error before a workload operation
+
 namespace pat {
 static inline uint8_t byte_at(uint64_t tag, size_t i) { return (uint8_t)(((tag * 0x9E3779B97F4A7C15ull) >> 56) ^ (uint8_t)(i * 131u + 7u)); }
 static inline void fill(void *p, size_t n, uint64_t tag) { uint8_t *b = (uint8_t *)p; for (size_t i = 0; i < n; i++) b[i] = byte_at(tag, i); }
